@@ -29,6 +29,13 @@ SEQ_OPS = {'apply_local_op', 'spatial_inversion', 'roll_mps_unit_cell', 'enlarge
            'swap_sites', 'canonical_form', 'add', 'apply_local_term'}
 
 
+ACTION_OPS = {'DoLocalOp': 'apply_local_op', 'DoProductOp': 'apply_product_op', 'DoLocalTerm': 'apply_local_term',
+              'DoSwap': 'swap_sites', 'DoPermute': 'permute_sites', 'DoAdd': 'add', 'DoGroup': 'group_sites',
+              'DoGroupSplit': 'group_split', 'DoEnlargeChi': 'enlarge_chi', 'DoCompress': 'compress_svd', 'DoCanon': 'canonical_form',
+              'DoInversion': 'spatial_inversion', 'DoRoll': 'roll_mps_unit_cell', 'DoEnlarge': 'enlarge_mps_unit_cell',
+              'DoExtract': 'extract_segment'}
+INF_OPS = {'roll_mps_unit_cell', 'enlarge_mps_unit_cell', 'spatial_inversion', 'extract_segment', 'apply_local_op',
+           'apply_product_op'}
 SEQ3_OPS = {'apply_local_op', 'spatial_inversion', 'roll_mps_unit_cell', 'extract_segment', 'swap_sites'}
 
 
@@ -186,13 +193,28 @@ def check(ctx):
                'total charge (comparison up to a global sign after the first Jordan-Wigner operator)')
     ctx.exhaustive = False   # instances are a seeded sample of the case catalogue; operations on them are enumerated exhaustively
     t0 = time.time()
-    n1 = mc_and_replay(ctx, 'wide', cfg(seed, 307 if quick else 29, 4, 1), spec=SPEC, handlers=HANDLERS, leaf=leaf(1))
-    seq_ops = SEQ_OPS if quick else ALL_OPS
-    n2 = mc_and_replay(ctx, 'seq2', cfg(seed, 4001 if quick else 601, 3, 2, ops=seq_ops), spec=SPEC, handlers=HANDLERS, leaf=leaf(2))
+
+    def run(name, sample, maxl, maxconv, ops=ALL_OPS, bcs=('finite', 'segment', 'infinite'), need=()):
+        """run MC + replay; if the seeded sample left one of the actions in `need` uncovered, densify the sample"""
+        total = 0
+        for k in range(3):
+            total += mc_and_replay(ctx, name if k == 0 else '%s+%d' % (name, k), cfg(seed, max(2, sample // (5 ** k)), maxl, maxconv, ops, bcs),
+                                   spec=SPEC, handlers=HANDLERS, leaf=leaf(maxconv))
+            missing = [a for a in need if ctx.coverage_actions.get(a, (0, 0))[0] == 0]
+            if total > 0 and not missing:
+                break
+            ops = set(ops) if not missing else {ACTION_OPS[a] for a in missing}
+        return total
+    n1 = run('wide', 307 if quick else 29, 4, 1, need=[a for a in ACTION_OPS if a not in ('DoRoll', 'DoEnlarge')])
+    n0 = run('infinite', 53 if quick else 7, 3, 1 if quick else 2, ops=INF_OPS, bcs=('infinite',),
+             need=['DoRoll', 'DoEnlarge', 'DoInversion', 'DoExtract'])
+    n2 = run('seq2', 1201 if quick else 601, 3, 2, ops=SEQ_OPS if quick else ALL_OPS)
     n3 = 0
     if not quick:
-        n3 = mc_and_replay(ctx, 'seq3', cfg(seed, 9973, 3, 3, ops=SEQ3_OPS), spec=SPEC, handlers=HANDLERS, leaf=leaf(3))
-    ctx.notes['behaviours'] = dict(wide=n1, seq2=n2, seq3=n3)
+        n3 = run('seq3', 9973, 3, 3, ops=SEQ3_OPS)
+    uncovered = sorted(a for a in ACTION_OPS if ctx.coverage_actions.get(a, (0, 0))[0] == 0)
+    ctx.notes['uncovered_actions'] = uncovered
+    ctx.notes['behaviours'] = dict(wide=n1, infinite=n0, seq2=n2, seq3=n3)
     ctx.notes['replay_wall_s'] = round(time.time() - t0, 1)
 
 
